@@ -71,6 +71,7 @@ impl TxIn {
 //@fn TxIn::get_locking_script
 //@fn TxIn::get_satoshis
 //@fn TxIn::get_finalised_script_impl
+//@wrapper TxIn::get_finalised_script @ src/transaction/txin.rs = TxIn::get_finalised_script_impl
 }
 impl PublicKey {
 //@stub PublicKey::from_bytes_impl
@@ -90,6 +91,8 @@ impl Transaction {
 //@stub Transaction::sighash_preimage_impl
 //@fn Transaction::_verify
 //@fn Transaction::sign_impl
+//@wrapper Transaction::sign @ src/transaction/sighash.rs = Transaction::sign_impl
+//@wrapper Transaction::sighash_preimage @ src/transaction/sighash.rs = Transaction::sighash_preimage_impl
 }
 //@fn verify_tx_signature
 //@fn calculate_sighash_preimage
